@@ -237,6 +237,7 @@ var (
 	helperFn     *slip.FuncInfo
 	stderrIsFile bool
 	exported     []*slip.FuncInfo // every FuncInfo that was exported at start
+	basePkgs     = map[*slip.Package]bool{}
 )
 
 type boundedSink struct{ n int }
@@ -260,6 +261,7 @@ func workerInit() {
 	}
 	envSnapshot = os.Environ()
 	for _, p := range slip.AllPackages() {
+		basePkgs[p] = true
 		p.EachFuncInfo(func(fi *slip.FuncInfo) {
 			if fi.Export {
 				exported = append(exported, fi)
@@ -367,11 +369,19 @@ func afterCase(x *fw.Ctx, c *Case) {
 		}
 	}
 	_ = sl.Catch(func() {
-		if p := slip.FindPackage("c09-scratch"); p != nil {
-			slip.RemovePackage(p)
+		// packages the case made (or renamed the scratch package to)
+		for _, p := range slip.AllPackages() {
+			if !basePkgs[p] {
+				slip.RemovePackage(p)
+			}
+		}
+		// definitions under the pool's symbols
+		if slip.FindClass("foo") != nil {
+			_, _ = sl.Eval(slip.NewScope(), "(undefflavor 'foo)")
 		}
 		slip.UserPkg.Undefine("foo")
 		slip.UserPkg.Remove("foo")
+		slip.UserPkg.Remove("c09-fn") // a variable of that name; the function stays
 	})
 }
 
@@ -382,7 +392,8 @@ const canaryWant = "(3 (4) 7 5 6 1 1 1)"
 func canary(x *fw.Ctx, what string) {
 	scope := slip.NewScope()
 	res, err := sl.Eval(scope, canarySrc)
-	if err == nil && sl.Show(res) == canaryWant && slip.FindFunc("c09-fn") == helperFn {
+	pkgsOK := len(slip.AllPackages()) == len(basePkgs)
+	if err == nil && sl.Show(res) == canaryWant && slip.FindFunc("c09-fn") == helperFn && pkgsOK {
 		return
 	}
 	// A helper was redefined or removed through one of the pool's own symbols
@@ -390,11 +401,14 @@ func canary(x *fw.Ctx, what string) {
 	// ...): that is what those functions are for. Restore and look again.
 	x.Cover("world-restored")
 	msg := setupWorld()
-	if msg == "" {
+	if msg == "" && pkgsOK {
 		res, err = sl.Eval(scope, canarySrc)
 		if err == nil && sl.Show(res) == canaryWant {
 			return
 		}
+	}
+	if !pkgsOK {
+		msg += " (a package that existed at start is gone)"
 	}
 	// The interpreter of this worker is damaged beyond the by-design effects:
 	// nothing it says about later cases would mean anything. The worker ends
